@@ -137,10 +137,26 @@ def enrich(raw):
              "ovs": [{"params": [own(1 if i % 3 else 3), {"k": "prim", "p": 6}], "ret": {"k": "prim", "p": 6}, "ndef": 0, "dv": 0},
                      {"params": [own(2 if i % 3 else 4), {"k": "str", "mode": 0}], "ret": {"k": "prim", "p": 6}, "ndef": 0, "dv": 0}]},
         ]
-        if i % 2 == 0:
-            c["members"] = c["members"] + [{"m": "ctor", "vis": 0, "params": [{"k": "prim", "p": 6} if i % 4 == 0 else {"k": "str", "mode": 2}], "explicit": False, "form": 0, "dv": 0}]
+        if i % 3 == 2:
+            c["members"] = c["members"] + [{"m": "ctor", "vis": 0, "params": [{"k": "prim", "p": 6} if i % 2 == 0 else {"k": "str", "mode": 2}], "explicit": False, "form": 0, "dv": 0}]
     n = len(raw.get("classes", []))
-    raw["funcs"] = list(raw.get("funcs", [])) + [
+    # a multiple-inheritance shape: the deep chain listed first, a shallow mix-in last, overloads on an ancestor and on the most
+    # derived class -- and an overload whose arity lies strictly inside the default range of another
+    mk = lambda bases: {"kw": 0, "bases": bases, "members": [{"m": "method", "vis": 0, "static": False, "const": True, "virt": 0, "doc": 0,      # noqa: E731
+                                                               "ovs": [{"params": [], "ret": {"k": "prim", "p": 6}, "ndef": 0, "dv": 0}]}],
+                        "file": 0, "inpub": True, "doc": 0}
+    raw["classes"] = list(raw["classes"]) + [mk([]), mk([{"c": n, "acc": 0, "virt": False}]), mk([]),
+                                             mk([{"c": n + 1, "acc": 0, "virt": False}, {"c": n + 2, "acc": 0, "virt": False}])]
+    ptr = lambda c: {"k": "obj", "c": c, "mode": 3}        # noqa: E731
+    i32, s_ = {"k": "prim", "p": 6}, {"k": "str", "mode": 2}
+    probes = [
+        {"ovs": [{"params": [ptr(n + 1)], "ret": i32, "ndef": 0, "dv": 0}, {"params": [ptr(n + 3)], "ret": i32, "ndef": 0, "dv": 0}, {"params": [ptr(n + 2)], "ret": i32, "ndef": 0, "dv": 0}],
+         "file": 0, "inpub": True, "doc": 0},
+        {"ovs": [{"params": [ptr(n + 1), i32], "ret": i32, "ndef": 1, "dv": 5}, {"params": [ptr(n + 3), i32], "ret": i32, "ndef": 1, "dv": 5}], "file": 0, "inpub": True, "doc": 0},
+        {"ovs": [{"params": [i32, i32, i32], "ret": i32, "ndef": 2, "dv": 3}, {"params": [s_, s_], "ret": i32, "ndef": 0, "dv": 0}], "file": 0, "inpub": True, "doc": 0},
+    ]
+    raw["n_probe_funcs"] = len(probes)
+    raw["funcs"] = list(raw.get("funcs", [])) + probes + [
         {"ovs": [{"params": [{"k": "obj", "c": j, "mode": 2 if j % 2 == 0 else 0}, {"k": "prim", "p": 12}], "ret": {"k": "prim", "p": 6}, "ndef": 0, "dv": 0}],
          "file": 0, "inpub": True, "doc": 0} for j in range(n)]
     return raw
@@ -197,8 +213,8 @@ def judge(case, ctx):
         calls = c01.callables(lib, prom)
         avail = []
         for call in calls:
-            if call["kind"] in ("get", "set"):
-                continue
+            if call["kind"] in ("get", "set", "gget", "gset"):
+                continue            # data members are reached as attributes (field steps); globals are not part of the histories
             w, problem = c01.find_wrapper(db, idx, call, 0, be, True)
             if w is None:
                 classes.append("skip." + problem)
@@ -229,6 +245,11 @@ def judge(case, ctx):
             for m in c["members"]:
                 if m["kind"] == "seq" and any(e["scoped_name"] == c["qname"] + "::" + m["name"] for e in db["make_seqs"]):
                     seqs.append((c, m))
+        npf = case["raw"].get("n_probe_funcs", 3) + len(lib.classes) - 4
+        probe_ids = {f["id"] for f in lib.funcs[-npf:]} if npf > 0 else set()
+        for c_ in lib.classes:
+            ms = [m_ for m_ in c_["members"] if m_["kind"] == "method" and not m_.get("op") and not m_.get("role")]
+            probe_ids.update(m_["id"] for m_ in ms[-3:])
         slots = []
         native = []
         steps = []
@@ -382,7 +403,8 @@ def judge(case, ctx):
                     st_["args"][i] = {"k": "object"}
                     exc = "TypeError"
                 elif mode == "range":
-                    ints = [i for i, p in enumerate(params) if p.kind == "prim" and p.name in c01.RANGE and p.name != "bool"]
+                    ints = [i for i, p in enumerate(params) if p.kind == "prim" and p.name in c01.RANGE and p.name != "bool"
+                            and not ("range.unsigned64" in ctx.disabled_tags and p.name in ("unsigned long", "unsigned long long"))]
                     if not ints:
                         return False
                     i = ints[s[7] % len(ints)]
@@ -399,8 +421,9 @@ def judge(case, ctx):
                     i = idxs[s[7] % len(idxs)]
                     cs = [x for x in live(params[i].ref) if x.get("const")]
                     if "const.coerce_copy" in ctx.disabled_tags and any(
-                            m["kind"] == "ctor" and len(m["params"]) == 1 and not m.get("explicit") and not (m["params"][0].kind == "obj" and m["params"][0].ref is params[i].ref)
-                            for m in params[i].ref["members"]):
+                            m["kind"] == "ctor" and len(m["params"]) >= 1 and not m.get("explicit") and
+                            not (len(m["params"]) == 1 and m["params"][0].kind == "obj" and m["params"][0].ref is params[i].ref and m["params"][0].mode in (1, 2))
+                            for m in params[i].ref["members"]):      # any such constructor makes the class coercible (also from a tuple)
                         classes.append("avoided.const.coerce_copy")
                         return False          # known finding: a class with a converting constructor is silently copied instead
 
@@ -501,7 +524,7 @@ def judge(case, ctx):
                     continue
                 this = cands[s[3] % len(cands)]
                 n_step = len(steps)
-                if s[2] % 2:
+                if s[2] % 2 and not this.get("const"):
                     v = c01.pick_value(m["t"], s[4], slots, True, python=True)
                     native.append('  vf_emit("STEP %d"); o%d->%s = %s; printf("RET %d void\\n");' % (n_step, this["n"], m["name"], c01.cpp_value(v), n_step))
                     steps.append({"op": "set", "on": this["n"], "name": m["name"], "args": [py_value(v, m["t"], lib)], "ret": "void"})
@@ -554,6 +577,31 @@ def judge(case, ctx):
                 continue
             if not avail:
                 continue
+            if a in (6, 7):
+                # probes: the shapes the dispatch rules are about (see enrich); a const wrapper, once the history owns one, is
+                # offered to the overload that takes a non-const reference
+                pcalls = [x for x in avail if x[0]["ent"] is not None and x[0]["ent"].get("id") in probe_ids]
+                if pcalls:
+                    call, k, w = pcalls[s[1] % len(pcalls)]
+                    neg = None
+                    refs = [p_ for p_ in call["params"] if p_.kind == "obj" and p_.mode in (1, 3)]
+                    if refs and s[2] % 3:
+                        for p_ in refs:
+                            if not any(x.get("const") for x in live(p_.ref)):
+                                # obtain a const wrapper first: the class's const method that hands out a const pointer/reference to itself
+                                getters = [x for x in avail if x[0]["kind"] == "method" and x[0]["cls"] is p_.ref and not x[0]["params"] and x[0].get("const")
+                                           and x[0]["ret"].kind == "obj" and x[0]["ret"].ref is p_.ref and x[0]["ret"].mode in (2, 4)]
+                                if getters:
+                                    s2 = list(s)
+                                    s2[8] = 0
+                                    do_call(getters[0][0], getters[0][1], getters[0][2], s2, 0, None)
+                        if any(any(x.get("const") for x in live(p_.ref)) for p_ in refs):
+                            neg = "constarg"
+                    classes.append("probe" + (".constarg-requested" if neg else ""))
+                    if not do_call(call, k, w, s, 0, neg) and neg:
+                        classes.append("probe.constarg-not-possible")
+                        do_call(call, k, w, s, 0, None)
+                    continue
             pool = avail
             if a in (4, 5) or not live():
                 pool = [x for x in avail if x[0]["kind"] == "ctor"] or avail
